@@ -185,6 +185,7 @@ func (e *Encoder) writeValue(val reflect.Value, tagType byte) error {
 
 	case TagString:
 		var str []byte
+		var isText bool
 		if val.NumMethod() > 0 && val.CanInterface() {
 			if t, ok := val.Interface().(encoding.TextMarshaler); ok {
 				var err error
@@ -192,8 +193,10 @@ func (e *Encoder) writeValue(val reflect.Value, tagType byte) error {
 				if err != nil {
 					return err
 				}
+				isText = true
 			}
-		} else {
+		}
+		if !isText {
 			str = []byte(val.String())
 		}
 		if err := writeInt16(e.w, int16(len(str))); err != nil {
